@@ -344,16 +344,21 @@ Pick(n) ==
 BlockDefined(f, bname) == old.glob[f] # 0 /\ src[old.glob[f]].k = "func" /\ bname \in BlockNames(src[old.glob[f]])
 Tail3 ==
   /\ pc \in {"ulo", "ulobb", "fixBaddr"}
-  /\ UNCHANGED <<src, i, old, new, uses, todo, picks>>
+  /\ UNCHANGED <<src, i, old, new, uses, picks>>
   /\ CASE pc = "ulo" ->
-            IF \E x \in 1..Len(old.ulos) : new.glob[src[old.ulos[x]].refs[1].to] = "none"
-            THEN Fail("err") ELSE pc' = "ulobb" /\ UNCHANGED <<res, pend>>
+            \* the directive's value is translated here: a global is looked up; a blockaddress constant
+            \* looks up its function and is queued for the block fix-up of step 7
+            LET rs == [x \in 1..Len(old.ulos) |-> src[old.ulos[x]].refs[1]] IN
+            IF \E x \in 1..Len(rs) : new.glob[rs[x].to] = "none"
+            THEN Fail("err") /\ UNCHANGED todo
+            ELSE /\ pc' = "ulobb" /\ UNCHANGED <<res, pend>>
+                 /\ todo' = todo \cup { <<rs[x].to, rs[x].aux>> : x \in {x \in 1..Len(rs) : rs[x].rk = "l.baddr"} }
        [] pc = "ulobb" ->
             IF \E x \in 1..Len(old.ulobbs) : ~BlockDefined(src[old.ulobbs[x]].refs[1].to, src[old.ulobbs[x]].refs[1].aux)
-            THEN Fail("err") ELSE pc' = "fixBaddr" /\ UNCHANGED <<res, pend>>
+            THEN Fail("err") /\ UNCHANGED todo ELSE pc' = "fixBaddr" /\ UNCHANGED <<res, pend, todo>>
        [] pc = "fixBaddr" ->
             IF \E t \in todo : ~BlockDefined(t[1], t[2])
-            THEN Fail("err") ELSE pc' = "addDefs" /\ UNCHANGED <<res, pend>>
+            THEN Fail("err") /\ UNCHANGED todo ELSE pc' = "addDefs" /\ UNCHANGED <<res, pend, todo>>
 
 \* step 8: assemble the module (addDefsToModule): types and comdats in natural order, attribute
 \* groups and metadata by ID, globals in recorded textual order, all from the AST indices
